@@ -251,7 +251,8 @@ class RemoteSession:
 
 
 class Lab:
-    def __init__(self, config_text: str, *, quantum: float = 0.0002, env: dict | None = None, bind_port: int | None = None, api: bool = False, tmpdir: str | None = None) -> None:
+    def __init__(self, config_text: str, *, quantum: float = 0.0002, env: dict | None = None, bind_port: int | None = None, api: bool = False, tmpdir: str | None = None, loud: bool = False) -> None:
+        self.loud = loud  # every log call evaluates its lazy message (debug logging with every source on), the text is dropped
         self.clock = VClock(quantum)
         self.events: list[dict] = []
         self.sessions: list[RemoteSession] = []
@@ -437,7 +438,10 @@ class Lab:
 
     def build(self) -> None:
         """construct the real Reactor (not yet running)"""
-        exa.quiet()
+        if self.loud:
+            exa.loud()
+        else:
+            exa.quiet()
         from exabgp.environment import getenv
 
         env = getenv()
